@@ -216,3 +216,64 @@ PROPS.update({
         "assumptions": ["typed slice arguments (&[u8], &[u32], &[i16]) hold values of their element type; FrameOffset::Frame carries a u32"],
     },
 })
+
+
+# ------------------------------------------------------------------ C20: one model, four builds
+FEATURE_SETS = ["", "par,serde,log", "par,serde,log,decode", "par,serde,log,decode,experimental"]
+
+
+def c20_extra(run, tier, bins):
+    """Translation validation of each build against the same model: the harness is built once per
+    feature set, every build encodes the same corpus (same seed), every output goes through the Lean
+    model checks, and the per-case digests must agree across builds."""
+    import hashlib, os, re
+    cases = 120 if tier == "quick" else 2500
+    maxs = 5000 if tier == "quick" else 40000
+    digests = {}
+    for fs in FEATURE_SETS:
+        b, err = run.build_harness("release", features=fs)
+        if err:
+            run.proof_problems.append(err)
+            continue
+        run.programs += 1
+        label = "stream@features[" + (fs or "none") + "]"
+        run.run_stream(b, "stream", ["--cases", cases, "--max-samples", maxs], label)
+        rec = os.path.join(os.path.dirname(os.path.dirname(os.path.abspath(__file__))), ".cache", f"{run.pid}-{label}.rec")
+        d = {}
+        for line in open(rec):
+            m = re.search(r"\bid=(\S+)", line)
+            b2 = re.search(r"\bimpl_bytes=(\S+)", line)
+            i2 = re.search(r"\bimpl=(\S+)", line)
+            if m:
+                d[m.group(1)] = (hashlib.md5(b2.group(1).encode()).hexdigest() if b2 else "none", i2.group(1) if i2 else "?", line)
+        digests[fs] = d
+    ref_fs = FEATURE_SETS[1]
+    if ref_fs in digests:
+        for fs, d in digests.items():
+            if fs == ref_fs:
+                continue
+            for rid, (h, kind, line) in d.items():
+                r = digests[ref_fs].get(rid)
+                if r is None or r[0] != h or r[1] != kind:
+                    run.oracle_fails.append(("features[" + (fs or "none") + "]", line.strip()[:3000],
+                                             f"bytes differ from the build with features [{ref_fs}] for case {rid}"))
+                    break
+        run.stats["feature_sets_compared"] = len(digests)
+        run.stats["cases_per_feature_set"] = len(digests[ref_fs])
+
+
+PROPS.update({
+    "C20": {
+        "level": "translation_validation",
+        "theorem_modules": ["FlacVerif.Theorems.C01", "FlacVerif.Theorems.C09"],
+        "streams": {"quick": [], "thorough": [], "search": []},
+        "extra": c20_extra,
+        "diff_prefix": ["c01.", "c02.", "c03.", "c04.", "c09."], "oracle_fields": ["o_c01", "o_c09"], "class_of": stream_class,
+        "rule": ("the harness is built four times - no features, default (log, par, serde), default+decode, default+decode+experimental - and each build encodes the same corpus "
+                 "(STREAM_RULE generator, same seed, non-experimental configurations, the `multithread` field set explicitly because only its DEFAULT legitimately depends on the par feature); "
+                 "every build's output is checked against the one feature-free Lean model (strict RFC decoder, book-keeping, functional replay on the oracle log) and the per-case digests of the "
+                 "emitted bytes are compared across the four builds. " + STREAM_RULE),
+        "trusted_base": STREAM_TRUSTED + ["cargo / rustc conditional compilation itself (cfg attributes) cannot be expressed in a Lean model: the property is decided by validating each build against the same model and comparing digests"],
+        "assumptions": ["float results are compared across builds, not modelled"],
+    },
+})
